@@ -89,6 +89,9 @@ void note(const char* fmt, ...) __attribute__((format(printf, 1, 2)));   // goes
 // mark the run as non-trivial-eligible: >=2 fibers were inside the operation window
 // free-form context appended to deadlock / livelock / budget messages (used to attribute hangs)
 void set_tag(const char* fmt, ...) __attribute__((format(printf, 1, 2)));
+// After an injected fault some properties promise safety only: a hang (deadlock/livelock) is then reported with
+// class "hang-after-fault", which checks count as inconclusive, not as a violation.
+void set_hang_after_fault_ok(bool on);
 void mark_window();
 void set_sample(const std::string& program_text);   // human-readable program for evidence samples
 
